@@ -758,7 +758,7 @@ func c16Correspondence(c *Ctx) {
 
 	// appendStackPointer after random token histories (Encoder drives Tokens/Names)
 	lines, want, inputs = nil, nil, nil
-	var specLines []string
+	var specLines, machLines []string
 	nh := c.N(3000, 100000)
 	export := jsontext.Internal.Export(&internal.AllowInternalUse)
 	nameAlpha := []string{"a", "b", "a/b", "~", "m~n/", "", "é", "😀", "0", "~1", "k"}
@@ -829,6 +829,7 @@ func c16Correspondence(c *Ctx) {
 			h := strings.Join(hist, " ")
 			lines = append(lines, strings.TrimSpace(fmt.Sprintf("ptr sp %d %s", w, h)))
 			specLines = append(specLines, strings.TrimSpace(fmt.Sprintf("ptr spec %d %s", w, h)))
+			machLines = append(machLines, strings.TrimSpace(fmt.Sprintf("ptr spm %d %s", w, h)))
 			want = append(want, hx(got))
 			inputs = append(inputs, []byte(fmt.Sprintf("%d %s", w, h)))
 		}
@@ -837,9 +838,13 @@ func c16Correspondence(c *Ctx) {
 	}
 	ans = or.Ask(lines)
 	ans2 := or.Ask(specLines)
+	ans3 := or.Ask(machLines)
 	for i := range lines {
 		if ans[i] != want[i] {
 			c.Violate("corr-stackptr", "appendStackPointer", inputs[i], map[string]any{"line": lines[i], "impl": want[i], "model": ans[i]})
+		}
+		if ans3[i] != want[i] {
+			c.Violate("corr-stackptr-machine", "appendStackPointer", inputs[i], map[string]any{"line": machLines[i], "impl": want[i], "model": ans3[i]})
 		}
 		if ans2[i] != want[i] {
 			c.Violate("corr-stackptr-spec", "pointerOf", inputs[i], map[string]any{"line": specLines[i], "impl": want[i], "spec": ans2[i]})
